@@ -71,3 +71,12 @@ Print Assumptions C14_src_removeparam_never_optimized.
 Theorem C14_src_rewrite_guard : rewrite_suppressed_by = "important"%string.
 Proof. exact rewrite_guard_is_important. Qed.
 Print Assumptions C14_src_rewrite_guard.
+
+(* the parameter-name fallback of get_tokens: only for a rule with no other token, on a validated,
+   lower-cased name (the whole function is tied to the model by C01_src_get_tokens_is_model) *)
+From Adb Require Struct_Tokens_Proofs.
+Theorem C14_src_param_fallback_guard :
+  In ("param"%string, TokensGen.TAnd (TokensGen.TAtom TokensGen.T_tokens_empty) (TokensGen.TAtom TokensGen.T_removeparam)) TokensGen.steps
+  /\ TokensGen.param_validated = true /\ TokensGen.param_lowercased = true.
+Proof. exact Struct_Tokens_Proofs.param_fallback_guard. Qed.
+Print Assumptions C14_src_param_fallback_guard.
